@@ -14,7 +14,7 @@ pub fn def() -> CheckDef {
         meta: CheckMeta {
             id: "C13",
             level: "exploration",
-            rule: "orchestrations of 2-3 worker processes on one path (file existing or not yet created); each worker opens the database, reads all marker keys, commits its own marker, holds the database for a generated time and closes. Generated: start order and offsets (0-40 ms), hold times (0-25 ms), and per worker an optional gate at a libc boundary (before open64, after open64 returned, before / after the file-size query (statx), the 1st/2nd write of the creator, fsync, mmap64, close) at which the LD_PRELOAD shim parks the process until the orchestrator releases it; all gate choices x release orders for two processes; for three: structured chains (A parked while holding, B queued behind it, C started only after A or B was released and has closed) and seeded samples. A worker that does not reach its gate within a timeout is taken to be waiting for the kernel lock and the orchestrator moves on: timing decides which interleaving is produced, never the verdict. Oracle from CLOCK_MONOTONIC timestamps taken by the workers (open returned / about to close): the intervals are pairwise disjoint; every worker sees the marker of every worker whose interval ended before its own began; every worker exits 0 (an Err or panic from open is a failure to wait); each worker also churns a bucket of its own and runs DB::check(); in a third of the cases a worker also reads its own file through a second descriptor while it holds the database (a backup copy or size probe, which must not let the next opener in), and in a quarter a worker clones its handle, drops the original and goes on with the clone; and after all have closed the file must still hold every marker and every worker's data and pass the independent parser. Non-trivial = orchestration in which a second open was issued while another process held the database or was creating it. Distinct = hash of the orchestration.",
+            rule: "orchestrations of 2-3 worker processes on one path (file existing or not yet created); each worker opens the database, reads all marker keys, commits its own marker, holds the database for a generated time and closes. Generated: start order and offsets (0-40 ms), hold times (0-25 ms), and per worker an optional gate at a libc boundary (before open64, after open64 returned, before / after the file-size query (statx), the 1st/2nd write of the creator, fsync, mmap64, close) at which the LD_PRELOAD shim parks the process until the orchestrator releases it; all gate choices x release orders for two processes; for three: structured chains (A parked while holding, B queued behind it, C started only after A or B was released and has closed) and seeded samples. A worker that does not reach its gate within a timeout is taken to be waiting for the kernel lock and the orchestrator moves on: timing decides which interleaving is produced, never the verdict. Oracle from CLOCK_MONOTONIC timestamps taken by the workers (open returned / about to close): the intervals are pairwise disjoint; every worker sees the marker of every worker whose interval ended before its own began; every worker exits 0 (an Err or panic from open is a failure to wait); each worker also churns a bucket of its own and runs DB::check(); in a third of the cases a worker also reads its own file through a second descriptor while it holds the database (a backup copy or size probe, which must not let the next opener in), in a quarter a worker clones its handle, drops the original and goes on with the clone, and in a quarter a worker opens the file through a symbolic link; and after all have closed the file must still hold every marker and every worker's data and pass the independent parser. Non-trivial = orchestration in which a second open was issued while another process held the database or was creating it. Distinct = hash of the orchestration.",
             assumptions: &[
                 "flock itself is a raw syscall invisible to the shim; its effect is observed",
                 "three processes are sampled, not enumerated",
@@ -40,6 +40,9 @@ pub struct ProcSpec {
     /// the process clones its database handle, drops the original and goes on with the clone
     #[serde(default)]
     pub clone_drop: bool,
+    /// the process opens the database through a symbolic link to the file
+    #[serde(default)]
+    pub via_symlink: bool,
 }
 
 #[derive(Serialize, Deserialize, Clone, Debug, PartialEq, Eq, Hash)]
@@ -167,6 +170,12 @@ pub fn run_case(case: &C13Case, dir: &Path) -> Result<Orchestration, Failure> {
     if !shim.exists() {
         return Err(Failure::new("harness_panic", format!("{} missing (run setup)", shim.display())));
     }
+    // a symbolic link to the database file (dangling until the file is created)
+    let link = dir.join("p.link.db");
+    let _ = std::fs::remove_file(&link);
+    if case.procs.iter().any(|p| p.via_symlink) {
+        std::os::unix::fs::symlink(&db, &link).map_err(|e| Failure::new("io", format!("symlink: {}", e)))?;
+    }
     let n = case.procs.len();
     let mut children: Vec<Option<Child>> = (0..n).map(|_| None).collect();
     let mut gate_dirs: Vec<Option<PathBuf>> = vec![None; n];
@@ -179,14 +188,15 @@ pub fn run_case(case: &C13Case, dir: &Path) -> Result<Orchestration, Failure> {
         let outp = dir.join(format!("p{}.json", i));
         let _ = std::fs::remove_file(&outp);
         let mut cmd = Command::new(std::env::current_exe().unwrap());
-        cmd.arg("worker").arg("proc").arg(&db).arg(i.to_string()).arg(p.hold_ms.to_string()).arg(&outp);
+        let used_path = if p.via_symlink { &link } else { &db };
+        cmd.arg("worker").arg("proc").arg(used_path).arg(i.to_string()).arg(p.hold_ms.to_string()).arg(&outp);
         if p.peek {
             cmd.arg("peek");
         }
         if p.clone_drop {
             cmd.arg("clone");
         }
-        cmd.env("LD_PRELOAD", &shim).env("JV_SHIM_DB", &db).env("RUST_BACKTRACE", "0").env_remove("JV_SHIM_LOG");
+        cmd.env("LD_PRELOAD", &shim).env("JV_SHIM_DB", used_path).env("RUST_BACKTRACE", "0").env_remove("JV_SHIM_LOG");
         cmd.stdout(Stdio::null()).stderr(Stdio::null());
         let gd = if p.gate.is_empty() {
             None
@@ -404,8 +414,8 @@ fn shard(ctx: &ShardCtx, known: &Known) -> ShardOut {
                     cases.push(C13Case {
                         file_exists: exists,
                         procs: vec![
-                            ProcSpec { gate: g0.clone(), hold_ms: rng.below(20) as u32, start_delay_ms: 0, start_after_release_of: None, peek: k % 3 == 0, clone_drop: k % 4 == 1 },
-                            ProcSpec { gate: g1.clone(), hold_ms: rng.below(20) as u32, start_delay_ms: rng.below(5) as u32, start_after_release_of: None, peek: k % 5 == 0, clone_drop: k % 7 == 2 },
+                            ProcSpec { gate: g0.clone(), hold_ms: rng.below(20) as u32, start_delay_ms: 0, start_after_release_of: None, peek: k % 3 == 0, clone_drop: k % 4 == 1, via_symlink: k % 6 == 5 },
+                            ProcSpec { gate: g1.clone(), hold_ms: rng.below(20) as u32, start_delay_ms: rng.below(5) as u32, start_after_release_of: None, peek: k % 5 == 0, clone_drop: k % 7 == 2, via_symlink: k % 4 == 3 },
                         ],
                         release: if order == 0 { vec![0, 1] } else { vec![1, 0] },
                     });
@@ -426,9 +436,9 @@ fn shard(ctx: &ShardCtx, known: &Known) -> ShardOut {
                     cases.push(C13Case {
                         file_exists: exists,
                         procs: vec![
-                            ProcSpec { gate: ga.to_string(), hold_ms: 5, start_delay_ms: 0, start_after_release_of: None, peek, clone_drop: !peek && after == 1 },
-                            ProcSpec { gate: gb.to_string(), hold_ms: 60, start_delay_ms: 0, start_after_release_of: None, peek, clone_drop: !peek && after == 1 },
-                            ProcSpec { gate: String::new(), hold_ms: 5, start_delay_ms: 0, start_after_release_of: Some(after), peek: false, clone_drop: false },
+                            ProcSpec { gate: ga.to_string(), hold_ms: 5, start_delay_ms: 0, start_after_release_of: None, peek, clone_drop: !peek && after == 1, via_symlink: false },
+                            ProcSpec { gate: gb.to_string(), hold_ms: 60, start_delay_ms: 0, start_after_release_of: None, peek, clone_drop: !peek && after == 1, via_symlink: k % 3 == 0 },
+                            ProcSpec { gate: String::new(), hold_ms: 5, start_delay_ms: 0, start_after_release_of: Some(after), peek: false, clone_drop: false, via_symlink: k % 6 == 0 },
                         ],
                         release: vec![0, 1, 2],
                     });
@@ -450,6 +460,7 @@ fn shard(ctx: &ShardCtx, known: &Known) -> ShardOut {
                 start_after_release_of: if i == 2 && rng.chance(1, 2) { Some(rng.below(2) as usize) } else { None },
                 peek: rng.chance(1, 3),
                 clone_drop: rng.chance(1, 4),
+                via_symlink: rng.chance(1, 4),
             })
             .collect();
         let mut release: Vec<usize> = (0..n).collect();
